@@ -84,6 +84,7 @@ fn main() {
             let count: usize = args[3].parse().unwrap();
             synth::run(seed, count, &args[4]).print();
         }
+        "dotnames" => synth::dotnames_run().print(),
         "difat" => {
             // cfbh difat <seed> <count> <outfile>
             let seed: u64 = args[2].parse().unwrap();
